@@ -68,6 +68,35 @@ def run(ctx):
         it = [bi for bi, t in mg.calls() if call_matches(t, ['db::Db::iter_column_index_while'])]
         for s in it:
             lib.precedes(ctx, '5d iterate-after-open', mg, so, [s], 'the index walk runs on the opened source')
+    if mg:
+        ins = [bi for bi, t in mg.calls() if call_matches(t, ['re:BTreeSet.*::insert$']) and bi in mg.normal_blocks()]
+        # the automatic selection: an insert that depends on a comparison of source and destination column options
+        need = {'preimage', 'uniform', 'ref_counted', 'compression', 'btree_index', 'multitree'}
+        ok = False
+        det = 'no insert guarded by a comparison of column options'
+        for s2 in ins:
+            calls, fields, binops = lib.guard_influences(mg, s2)
+            if any(re.search(r'ColumnOptions as std::cmp::PartialEq>::(eq|ne)$', c) for c in calls) or any(c in ('std::cmp::PartialEq::ne', 'std::cmp::PartialEq::eq') and '.Options.columns' in fields for c in calls):
+                ok = True
+                continue
+            # custom predicate: every data-affecting field must be read by it
+            read = set()
+            for c in calls:
+                cb = F.body(c)
+                if cb is not None:
+                    for blk in cb.blocks:
+                        for st in blk['s']:
+                            if st['k'] == 'assign':
+                                for pl in ([st['r'].get('p')] if st['r'].get('p') else []) + [op_place(a) for a in st['r'].get('a', []) if op_place(a)]:
+                                    read |= set(e.split('.')[-1] for e in pl[1:] if isinstance(e, str) and e.startswith('.ColumnOptions.'))
+            read |= set(e.split('.')[-1] for e in fields if e.startswith('.ColumnOptions.'))
+            if read:
+                if need <= read:
+                    ok = True
+                else:
+                    det = 'the selection predicate ignores %s' % sorted(need - read)
+        ctx.ob('2c selection-compares-all-data-affecting-options', 'K9-agreement', mg.path,
+               'a column is re-populated automatically whenever source and destination options differ in anything that affects stored bytes (full ColumnOptions equality, or at least preimage/uniform/ref_counted/compression/btree_index/multitree)', ok, det)
     cl = F.body('migration::migrate::{closure#1}')
     if cl is None:
         ctx.ob('3 closure-anchor', 'anchor', 'migration::migrate', 'the per-entry closure of migrate exists', False, '')
